@@ -21,6 +21,10 @@ CHECKS = {
                 text="Type vocabulary: for every element and every (atom type, geometry) in [0,250]x[0,70] and bond type in [0,110], all paths confirm that the emitted token is accepted by the reader, keeps the element (Dummy rule), preserves Tripos-expressible bond types and is a fixed point of write/read. Whole text: Molecule/Structure/ConformerEnsemble with 0-3 atoms over curated menus of names, labels, elements, coordinates, charges and types read back with the listed fields to 1e-6 / 1e-3 and re-dump to identical text.",
                 note="Strings come from menus (regex-based parsing of symbolic text is out of CrossHair's reach): the whole-text part is selector-bound; quick tier varies menu dimensions pairwise, thorough tier takes the full product.",
                 design="3/C07"),
+    "C08": dict(engine="XH+SR", technique="SR: the real yield_from_xyz / yield_from_mol2 unit branch and scale() executed on z3 Real coordinates, one linear-real query per unit and component with numeric replay; XH: selector-driven xyz write/read cycles",
+                text="Units: for every member and alias of DistanceUnit and both readers, z3 shows that for ALL real coordinates the value returned is within 1e-4 relative of the coordinate times an independent Angstrom-per-unit table (unsat), i.e. physical distances are unchanged; models are replayed through the real text parsers. Round trip: every element in every geometry class, 0-3 atoms, 1-3 frames and a coordinate menu read back with count, order, elements and coordinates to 1e-6.",
+                note="Reals, not floats, in the unit proof (factor rounding sits inside the tolerance); the text round trip is selector-bound; the parsers are replaced by a one-block stub in the SR part only.",
+                design="3/C08"),
     "C14": dict(engine="XH+SHP", technique="CrossHair symbolic execution of the real ConformerEnsemble/Conformer code on a shape-level numpy model with symbolic extents (n_conformers up to 1000), plus real-numpy content scenarios; z3 decides each path",
                 text="One inductive step from an arbitrary rectangular state: for every constructor branch, each of 17 operations, all n_conformers in [0,1000] (symbolic, linear integer arithmetic over array extents), n_atoms 0..3 and every conformer index, the three parallel arrays keep matching extents and every conformer view reads coordinates and charges. On real numpy (extents <= 3): writes through a conformer change row i only, iteration (nested, interleaved, suspended) visits each conformer once in order, grown ensembles dump and serialise.",
                 note="The shape model (engine/shapenp.py) is validated against numpy on ~10k concrete shape cases per run; array *content* is only checked at concrete small extents; a symbolic conformer index bypasses __getitem__'s match statement (CrossHair artefact) and constructs the Conformer directly.",
